@@ -1,4 +1,5 @@
 import Bp7.Props.C05
+import Bp7.Props.C05Bundle
 #print axioms Bp7.C05.crc16_window
 #print axioms Bp7.C05.crc32c_window
 #print axioms Bp7.C05.crc16_bitflip
@@ -14,3 +15,11 @@ import Bp7.Props.C05
 #print axioms Bp7.C05.canon_corruption_detected_16
 #print axioms Bp7.C05.canon_corruption_detected_32
 #print axioms Bp7.C05.bundle_fails_if_block_fails
+#print axioms Bp7.C05.view_window_16
+#print axioms Bp7.C05.view_window_32
+#print axioms Bp7.C05.view_crcvalue_16
+#print axioms Bp7.C05.view_crcvalue_32
+#print axioms Bp7.C05.block_of_received
+#print axioms Bp7.C05.bundle_window_detected
+#print axioms Bp7.C05.bundle_crcvalue_detected
+#print axioms Bp7.C05.wire_split
